@@ -3,11 +3,23 @@ use bevy::{ecs::entity::MapEntities, prelude::*, time::TimeUpdateStrategy};
 use bevy_replicon::{
     client::{
         ServerUpdateTick,
-        confirm_history::EntityReplicated,
+        confirm_history::{ConfirmHistory, EntityReplicated},
         server_mutate_ticks::MutateTickReceived,
     },
+    bytes::Bytes,
     prelude::*,
-    shared::replication::track_mutate_messages::TrackAppExt,
+    shared::{
+        replication::{
+            command_markers::{AppMarkerExt, MarkerConfig},
+            deferred_entity::DeferredEntity,
+            replication_registry::{
+                ctx::{RemoveCtx, WriteCtx},
+                rule_fns::RuleFns,
+            },
+            track_mutate_messages::TrackAppExt,
+        },
+        replicon_tick::RepliconTick,
+    },
 };
 use serde::{Deserialize, Serialize};
 use std::time::Duration;
@@ -296,6 +308,56 @@ pub struct Rec {
     pub sender: Option<Entity>,
 }
 
+// ------------------------------------------------------------------------------------------------
+// Client-side replication markers (the hook prediction / rollback crates use).
+// ------------------------------------------------------------------------------------------------
+
+/// Marker that asks for history: `Va` updates of an entity that carries it are recorded per tick
+/// (also the ones that arrive late, i.e. older than the entity's confirmed tick); only the newest
+/// one becomes the live value.
+#[derive(Component)]
+pub struct Predicted;
+/// Marker without history whose functions write `Vb` the ordinary way: they must never be called
+/// for an outdated message, also not on entities that carry `Predicted` as well.
+#[derive(Component)]
+pub struct Plain;
+/// What `Predicted`'s write function recorded: (message tick, value).
+#[derive(Component, Default, Clone)]
+pub struct HistVa(pub Vec<(RepliconTick, u32)>);
+/// Seed of the pseudo-random marker assignment of one client app (0 = no markers in this run).
+#[derive(Resource, Default)]
+pub struct MarkerSalt(pub u64);
+
+fn write_va_history(ctx: &mut WriteCtx, rule_fns: &RuleFns<Va>, entity: &mut DeferredEntity, message: &mut Bytes) -> Result<()> {
+    let v: Va = rule_fns.deserialize(ctx, message)?;
+    let tick = ctx.message_tick;
+    // (the library has already advanced the entity's confirmed tick when the message is the newest)
+    let newest = entity.get::<ConfirmHistory>().is_none_or(|h| tick >= h.last_tick());
+    if let Some(mut h) = entity.get_mut::<HistVa>() {
+        h.0.push((tick, v.0));
+    } else {
+        entity.insert(HistVa(vec![(tick, v.0)]));
+    }
+    if newest {
+        entity.insert(v);
+    }
+    Ok(())
+}
+
+fn remove_va_history(_ctx: &mut RemoveCtx, entity: &mut DeferredEntity) {
+    entity.remove::<HistVa>().remove::<Va>();
+}
+
+fn write_vb_plain(ctx: &mut WriteCtx, rule_fns: &RuleFns<Vb>, entity: &mut DeferredEntity, message: &mut Bytes) -> Result<()> {
+    let v: Vb = rule_fns.deserialize(ctx, message)?;
+    entity.insert(v);
+    Ok(())
+}
+
+fn remove_vb_plain(_ctx: &mut RemoveCtx, entity: &mut DeferredEntity) {
+    entity.remove::<Vb>();
+}
+
 /// Sequence number the client's game logic uses for its greeting event on the next connect.
 #[derive(Resource, Default)]
 pub struct Hello(pub u32);
@@ -415,7 +477,34 @@ pub fn mk_app(cfg: &Cfg, role: Role) -> App {
     // (the crate is built with its `client_diagnostics` feature: the plugin group then contains
     // `ClientDiagnosticsPlugin`, which keeps replication statistics and samples them every frame)
     app.insert_resource(TimeUpdateStrategy::ManualDuration(Duration::from_millis(FRAME_MS)))
-        .init_resource::<Log>();
+        .init_resource::<Log>()
+        .init_resource::<MarkerSalt>();
+    // markers are registered in every app (registration is part of a build); only client roles assign them
+    app.register_marker_with::<Predicted>(MarkerConfig { need_history: true, ..Default::default() })
+        .register_marker::<Plain>()
+        .set_marker_fns::<Predicted, Va>(write_va_history, remove_va_history)
+        .set_marker_fns::<Plain, Vb>(write_vb_plain, remove_vb_plain);
+    if role != Role::Server {
+        app.add_observer(|t: Trigger<OnAdd, Replicated>, salt: Res<MarkerSalt>, mut commands: Commands| {
+            if salt.0 == 0 {
+                return;
+            }
+            let e = t.target();
+            let h = crate::util::fnv64(&[salt.0.to_le_bytes(), e.to_bits().to_le_bytes()].concat()) % 6;
+            match h {
+                0 => {
+                    commands.entity(e).insert((Predicted, Plain));
+                }
+                1 => {
+                    commands.entity(e).insert(Predicted);
+                }
+                2 => {
+                    commands.entity(e).insert(Plain);
+                }
+                _ => {}
+            }
+        });
+    }
 
     let variant = match role {
         Role::ClientMismatch(v) if cfg.events || v < 3 => Some(v),
